@@ -197,7 +197,8 @@ def c64 : Ty := ⟨.complex, some 64⟩
 def symA : Expr := .sym "a" f32
 def symB : Expr := .sym "b" f32
 
-/-- the two rows of `_any_relop_any` as they are in the package today -/
+/-- the two rows of `_any_relop_any` as they were before the `fix:` commit 6a4e7cd in /repo (literal data,
+kept for the regression witnesses) -/
 def badRows : Table :=
   [((.name "nonnegative", .name "nonpositive"), [some true, some true, some false, some false, some false, some true]),
    ((.name "nonpositive", .name "nonnegative"), [some false, some false, some true, some true, some false, some true])]
